@@ -119,14 +119,14 @@ type Engine struct {
 	Committed State   // sequential model of the committed state
 	History   []State // committed states, oldest first (History[len-1] == Committed)
 
-	Tx      *txfile.Tx
-	txPages map[uint64]*txfile.Page
-	txW     map[uint64][]byte // contents written in tx (nil value: allocated, no content yet)
-	txNew   map[uint64]bool
-	txFreed map[uint64]bool
+	Tx        *txfile.Tx
+	txPages   map[uint64]*txfile.Page
+	txW       map[uint64][]byte // contents written in tx (nil value: allocated, no content yet)
+	txNew     map[uint64]bool
+	txFreed   map[uint64]bool
 	txFlushed map[uint64]bool
-	txRoot  uint64
-	txOpts  Op
+	txRoot    uint64
+	txOpts    Op
 
 	readers []*reader
 	fmu     sync.Mutex
